@@ -47,7 +47,13 @@ impl SearchOut {
 /// Run `get_best_move_until_stop`. If it has not returned after `watchdog_ms` the stop flag is
 /// cleared (exactly what the UCI `stop` command does).
 pub fn run_search(g: &Game, table: &mut TranspositionTable, depth: Option<u8>, watchdog_ms: u64) -> SearchOut {
-    let flag = AtomicBool::new(true);
+    run_search_flag(g, table, depth, watchdog_ms, true)
+}
+
+/// `running` = the value of the stop flag when the search starts: false is the `stop` (or the timer) that arrives
+/// before the search thread has executed its first statement
+pub fn run_search_flag(g: &Game, table: &mut TranspositionTable, depth: Option<u8>, watchdog_ms: u64, running: bool) -> SearchOut {
+    let flag = AtomicBool::new(running);
     let done = AtomicBool::new(false);
     let fired_at: std::sync::Mutex<Option<Instant>> = std::sync::Mutex::new(None);
     capture::reset();
